@@ -18,6 +18,8 @@ SHAPES = {
     'T7': [[dict(A1, fault='key')], [dict(B2, fault='key')]],
     'T8': [[dict(A1, exc='E1')], [dict(B2, pre=[{'do': 'discard'}])]],
     'T9': [[O1, O1], [dict(B2, fault='key'), OB]],
+    'T10': [[O1], [dict(O1, a=['x2'])]],                          # the SAME output alias from two workers (ordinals may race; transparency may not)
+    'T11': [[O1, dict(A1, fault='key')], [dict(O1, a=['x2']), B2]],
 }
 QUICK = ['T1', 'T2', 'T3', 'T4', 'T5', 'T7', 'T8']
 
